@@ -545,13 +545,72 @@ def solver_field_consts(ctx):
                     fld = st.targets[0].attr
                     if fld in written_elsewhere:
                         continue
-                    ok, v = ctx.prog.try_const(st.value, sinit.mod, env)
+                    val_ = st.value
+                    # `self.x = check_x(x)`: a validator that hands its argument back on every return
+                    if isinstance(val_, ast.Call) and isinstance(val_.func, ast.Name) and len(val_.args) == 1 and not val_.keywords and val_.func.id in sinit.mod.funcs:
+                        h_ = sinit.mod.funcs[val_.func.id]
+                        hp_ = [p_ for p_ in h_.params]
+                        rets_ = [r_ for r_ in walk_no_nested_defs(h_.node) if isinstance(r_, ast.Return)]
+                        def _hands_back(r_):
+                            if isinstance(r_.value, ast.Name) and r_.value.id == hp_[0]:
+                                return True
+                            par_ = getattr(r_, "parent", None)       # `if x is None: return` hands back None, which is x
+                            return (r_.value is None or (isinstance(r_.value, ast.Constant) and r_.value.value is None)) and isinstance(par_, ast.If) \
+                                and isinstance(par_.test, ast.Compare) and len(par_.test.ops) == 1 and isinstance(par_.test.ops[0], ast.Is) \
+                                and isinstance(par_.test.left, ast.Name) and par_.test.left.id == hp_[0] \
+                                and isinstance(par_.test.comparators[0], ast.Constant) and par_.test.comparators[0].value is None and r_ in par_.body
+                        if len(hp_) == 1 and rets_ and all(_hands_back(r_) for r_ in rets_) and isinstance(h_.node.body[-1], ast.Return) \
+                                and not any(isinstance(n_, ast.Name) and isinstance(n_.ctx, ast.Store) and n_.id == hp_[0] for n_ in walk_no_nested_defs(h_.node)):
+                            val_ = val_.args[0]
+                    ok, v = ctx.prog.try_const(val_, sinit.mod, env)
                     if ok and isinstance(v, (int, float, str, bool, type(None))):
                         out[fld] = v
     except AnalysisError:
         pass
     ctx.cache["solver_field_consts"] = out
     return out
+
+
+SWEPT_FIELDS = ("expected_rewards", "expected_rewards_min_reach", "expected_reach_min_rewards")
+
+
+def rule_no_sweep_memo(ctx, chk, rule):
+    """`if self._x is None: self._x = <choice made from the successors' current values>` in a node method: the choice is made in
+    the first sweep - when the values are still the one-step rewards - and kept, while the values it was made from change in every
+    sweep.  (A memo of something that no longer changes - the reachability strategies after the reachability phase - is not this.)"""
+    from . import kernels as K
+    roles = K.role_classes(ctx)
+    classes = set()
+    for c in roles.values():
+        classes.update(ctx.prog.mro(c))
+    n = hits = 0
+    for cn in sorted(classes):
+        cls = ctx.prog.classes.get(cn)
+        if cls is None:
+            continue
+        for m in cls.methods.values():
+            if m.name == "__init__":
+                continue
+            for iff in walk_no_nested_defs(m.node):
+                if not (isinstance(iff, ast.If) and isinstance(iff.test, ast.Compare) and len(iff.test.ops) == 1 and isinstance(iff.test.ops[0], (ast.Is, ast.Eq))
+                        and isinstance(iff.test.comparators[0], ast.Constant) and iff.test.comparators[0].value is None
+                        and isinstance(iff.test.left, ast.Attribute) and attr_path(iff.test.left) and attr_path(iff.test.left).startswith("self.")):
+                    continue
+                fld = iff.test.left.attr
+                for st in iff.body:
+                    if isinstance(st, ast.Assign) and any(isinstance(t, ast.Attribute) and attr_path(t) == "self." + fld for t in st.targets):
+                        n += 1
+                        read = sorted({x.attr for x in ast.walk(st.value) if isinstance(x, ast.Attribute) and x.attr in SWEPT_FIELDS})
+                        # reset anywhere outside the constructors?
+                        resets = [g for g in ctx.prog.all_funcs(("tad.py",)) if g.name != "__init__" and g is not m and any(
+                            isinstance(a, ast.Assign) and any(isinstance(t, ast.Attribute) and t.attr == fld for t in a.targets) for a in walk_no_nested_defs(g.node))]
+                        if read and not resets:
+                            hits += 1
+                            chk.violation(rule, m.where(st), "`self.%s` is chosen once (`if self.%s is None`) from the successors' `%s`, which every sweep changes: the choice made in the first "
+                                          "sweep (from the one-step values) is kept for all later ones" % (fld, fld, read[0]), expected="recomputed in every sweep",
+                                          found=norm_stmt(st)[:100], construct="%s memoises a choice made from swept values" % m.short)
+    if not hits:
+        chk.ok(rule, "tad.py", "%d lazily initialised node field(s): none keeps a choice made from values that the sweeps change" % n)
 
 
 def rule_node_keeps_transitions(ctx, chk, rule):
@@ -587,6 +646,15 @@ def rule_node_keeps_transitions(ctx, chk, rule):
                 return same_list(t[1], depth + 1)
             if t[0] == "slice" and t[2:] == (("c", None), ("c", None), ("c", None)):
                 return same_list(t[1], depth + 1)
+            # duplicates removed: list(dict.fromkeys(xs)), list(set(xs)), sorted(set(xs)) - two equal `(p, target)` entries of a
+            # probabilistic state are two shares of its probability mass, and the generator writes such states (width 1)
+            if t[0] == "call" and t[1] in ("set", "frozenset", "dict.fromkeys", "OrderedDict.fromkeys", "collections.OrderedDict.fromkeys") and t[2] \
+                    and same_list(t[2][0], depth + 1) is True:
+                return "drops repeated transitions (`%s`): a probabilistic state that lists the same (probability, target) pair twice loses that share of its probability mass" % show(t)[:50]
+            if t[0] == "mcall" and t[2] == "fromkeys" and t[3] and same_list(t[3][0], depth + 1) is True:
+                return "drops repeated transitions (`%s`): a probabilistic state that lists the same (probability, target) pair twice loses that share of its probability mass" % show(t)[:50]
+            if t[0] == "call" and t[1] in ("list", "tuple", "sorted") and len(t[2]) == 1 and isinstance(same_list(t[2][0], depth + 1), str):
+                return same_list(t[2][0], depth + 1)
             if t[0] == "compr" and t[1] in sx.loops:
                 L = sx.loops[t[1]]
                 inner = same_list(L.source, depth + 1)
